@@ -2,7 +2,8 @@
 import ast
 
 from ..model import AnalysisError
-from ..lib import FV, decode_new, decode_call, phi_members, is_sym, is_const, is_str, strip_stores, stores_of
+from ..lib import (FV, decode_new, decode_call, phi_members, is_sym, is_const, is_str, strip_stores, stores_of, cond_equiv,
+                   path_term)
 from ..cfg import always_raises, walk_stmts
 from ..terms import r_neg
 from . import common as cm
@@ -20,6 +21,12 @@ ANCHORS = [
     'field.Field.vdims.setter',
     'field.Field.vdim_mapping.setter',
 ]   # functions whose code the property is anchored in (mutation analysis, evidence)
+
+AUTOMUT_TRIAGE = [
+    (r"vdims\.setter$", r"line \d+: comparator Gt->GtE", "equivalent: three components are handled by the preceding 2 <= nvdim <= 3 branch"),
+    (r"vdims\.setter$", r"line \d+: (and<->or|comparator Is->IsNot|comparator NotIn->In)",
+     "the clash test between labels and existing attribute names (hasattr) is not part of the statement"),
+]
 
 
 def loop_guard(v, cond_text, exc, loop_iter_text, before, env_name=None):
@@ -124,6 +131,7 @@ def run(chk):
     d3_rmap(chk, repo)
     d4_refusals(chk, repo)
     d5_relabel(chk, repo)
+    d7_setter_conditions(chk, repo)
     chk.rule("C05.D6", "exactness for degree <= 2 on meshes with at least three cells rests on the 1-d derivative: its stencils, "
                        "edge orders and run-length thresholds are those of C04.D1/D2 (same rule instances)")
     from . import c04
@@ -274,3 +282,107 @@ def d5_relabel(chk, repo):
     chk.ob("field.Field.vdims.setter::mapping-follows-labels", ok, "C05.D5",
            f"{det}; expected {{new: vdim_mapping[old] for new, old in zip(new labels, labels before the assignment)}}", v.f,
            sts[0][0] if sts else None)
+
+
+# ------------------------------------------------------------------ D7
+def _reached_iff(chk, v, key, stmts, want_text, variables, what, env=None):
+    """the listed statements (together) are reached exactly under want_text (finite propositional/order-type decision)"""
+    if not stmts:
+        chk.ob(key, False, "C05.D7", f"{what}: the statement vanished", v.f)
+        return
+    parts = [path_term(v, st) for st in stmts]
+    got = parts[0] if len(parts) == 1 else v.ev._bool("or", parts)
+    want = v.spec(want_text, env=env)
+    ok = cond_equiv(v, got, want, variables)
+    chk.ob(key, ok, "C05.D7", f"{what} happens under {v.show(got)[:260]}; expected exactly under `{want_text}`", v.f, stmts[0])
+
+
+def d7_setter_conditions(chk, repo):
+    chk.rule("C05.D7", "the component-to-axis mapping is maintained under the documented conditions (each decided as a predicate "
+                       "over type tests and the order types of component count, mesh dimension and mapping size): default = "
+                       "labels zipped with the region's dims exactly for vector fields with as many components as the mesh has "
+                       "dimensions; keys other than the labels are refused; relabelling carries a non-empty mapping over")
+    v = FV(repo, "field.Field.vdim_mapping.setter")
+    nv = v.spec("self.nvdim")
+    nd = v.spec("self.mesh.region.ndim")
+    ln = v.spec("len(vdim_mapping)")
+    variables = [x for x in (nv, nd, ln) if x.single_atom() is not None]
+    assigns = [st for st in v.stmts() if isinstance(st, ast.Assign) and len(st.targets) == 1 and isinstance(st.targets[0], ast.Name)]
+    zipd = [st for st in assigns if v.eq(v.term(st.value, at=st), v.spec("dict(zip(self.vdims, self.mesh.region.dims))"))]
+    empty = [st for st in assigns if (v.ctx.head_of(v.term(st.value, at=st)) or ("",))[0] == "dict"
+             and not v.ctx.args_of(v.term(st.value, at=st))]
+    _reached_iff(chk, v, "field.Field.vdim_mapping.setter::default-pairs-labels-with-dims", zipd,
+                 "vdim_mapping is None and self.nvdim != 1 and self.nvdim == self.mesh.region.ndim", variables,
+                 "the default mapping labels -> region dims (in order)")
+    _reached_iff(chk, v, "field.Field.vdim_mapping.setter::empty-mapping", empty,
+                 "(vdim_mapping is None and (self.nvdim == 1 or self.nvdim != self.mesh.region.ndim)) or "
+                 "(vdim_mapping is not None and isinstance(vdim_mapping, dict) and len(vdim_mapping) == 1 and self.nvdim == 1 "
+                 "and self.vdims is None)", variables, "replacing the mapping by {}")
+    raises = {}
+    for r, name in v.raises():
+        raises.setdefault(name, []).append(r)
+    _reached_iff(chk, v, "field.Field.vdim_mapping.setter::foreign-keys-refused", raises.get("ValueError", []),
+                 "vdim_mapping is not None and isinstance(vdim_mapping, dict) and not (len(vdim_mapping) == 1 and self.nvdim == 1 "
+                 "and self.vdims is None) and len(vdim_mapping) > 0 and sorted(vdim_mapping) != sorted(self.vdims)", variables,
+                 "refusing a mapping (ValueError)")
+    _reached_iff(chk, v, "field.Field.vdim_mapping.setter::non-dict-refused", raises.get("TypeError", []),
+                 "vdim_mapping is not None and not isinstance(vdim_mapping, dict)", variables, "refusing a mapping (TypeError)")
+    st = [s_ for s_ in v.self_stores() if s_[1] == "_vdim_mapping"]
+    ok = False
+    if len(st) == 1:
+        mem = phi_members(v.ctx, v.term(st[0][2], at=st[0][0]))
+        want = [v.spec("vdim_mapping"), v.spec("dict(zip(self.vdims, self.mesh.region.dims))"), v.spec("{}")]
+        ok = all(any(v.eq(m, w) for w in want) for m in mem) and all(any(v.eq(m, w) for m in mem) for w in want)
+    chk.ob("field.Field.vdim_mapping.setter::stored-values", ok, "C05.D7",
+           "the stored mapping is the given one, {} or labels zipped with the region's dims", v.f, st[0][0] if st else None)
+    # ---- labels
+    v = FV(repo, "field.Field.vdims.setter")
+    nv = v.spec("self.nvdim")
+    ln = v.spec("len(vdims)")
+    variables = [x for x in (nv, ln) if x.single_atom() is not None]
+    assigns = [st for st in v.stmts() if isinstance(st, ast.Assign) and len(st.targets) == 1 and isinstance(st.targets[0], ast.Name)]
+    xyz = [st for st in assigns if v.eq(v.term(st.value, at=st), v.spec("['x', 'y', 'z'][: self.nvdim]"))]
+    vi = [st for st in assigns if v.eq(v.term(st.value, at=st), v.spec("[f'v{i}' for i in range(self.nvdim)]"))]
+    _reached_iff(chk, v, "field.Field.vdims.setter::default-xyz", xyz, "vdims is None and 2 <= self.nvdim and self.nvdim <= 3",
+                 variables, "default labels x, y, z")
+    _reached_iff(chk, v, "field.Field.vdims.setter::default-v-i", vi, "vdims is None and self.nvdim > 3", variables,
+                 "default labels v0, v1, ...")
+    valid_seq = ("vdims is not None and isinstance(vdims, (list, tuple, np.ndarray)) and "
+                 "not any(not isinstance(vdim, str) for vdim in vdims) and len(vdims) != 0")
+    for r, name in v.raises():
+        if name != "ValueError":
+            continue
+        pt = path_term(v, r)
+        heads = v.ctx.heads_in(pt)
+        if any(h[0] == "call" and h[1] == "set" for h in heads):
+            _reached_iff(chk, v, "field.Field.vdims.setter::duplicate-labels-refused", [r],
+                         valid_seq + " and len(vdims) != len(set(vdims))", variables, "refusing duplicate labels")
+        elif any(h[0] == "call" and h[1] == "hasattr" for h in heads):
+            continue
+        else:
+            _reached_iff(chk, v, "field.Field.vdims.setter::wrong-count-refused", [r],
+                         valid_seq + " and len(vdims) != self.nvdim", variables, "refusing a wrong number of labels")
+    # relabelling carries the mapping over
+    sts = [s_ for s_ in v.self_stores() if s_[1] == "vdim_mapping"]
+    old = None
+    for s_ in v.stmts():
+        if isinstance(s_, ast.Assign) and isinstance(s_.targets[0], ast.Name) and isinstance(s_.value, ast.Attribute) and \
+                v.eq(v.term(s_.value, at=s_), v.spec("self._vdims")):
+            old = s_
+    if sts and old is not None:
+        upd = sts[0][0]
+        par = v.cfg.parent.get(id(upd))
+        ok = False
+        det = "the update is not conditional"
+        if par and isinstance(par[0], ast.If) and par[1] == "body":
+            newname = None
+            store = [x for x in v.self_stores() if x[1] == "_vdims"]
+            if store and isinstance(store[0][2], ast.Name):
+                newname = store[0][2].id
+            if newname:
+                got = v.ev.term(par[0].test, at=par[0])
+                want = v.spec(f"len(self.vdim_mapping) > 0 and {newname} is not None and {old.targets[0].id} is not None", at=par[0])
+                ok = cond_equiv(v, got, want, [v.spec("len(self.vdim_mapping)")])
+                det = f"the mapping is rebuilt under {v.show(got)[:200]}"
+        chk.ob("field.Field.vdims.setter::relabel-condition", ok, "C05.D7",
+               f"{det}; expected: whenever it is non-empty and both the old and the new labels exist", v.f, upd)
